@@ -221,12 +221,13 @@ def get_folding_profile_section(
     if profile is None:
         str_ += "Could not determine folding profile\n"
     else:
-        delta = round(Decimal(window[2]),2)
+        # print the grid points lying on the window lattice
+        # window[0] + k * window[2] within [window[0], window[1]]
+        w_min, w_max, w_step = (Decimal(str(float(v))) for v in window)
         for (ph, dg) in profile:
-            ph = round(Decimal(ph), 3)
-            if ph >= window[0] and ph <= window[1]:
-                if ph % delta < 0.05 or ph % delta > 0.95:
-                    str_ += "{0:>6.2f}{1:>10.2f}\n".format(ph, dg)
+            ph_dec = Decimal(str(float(ph)))
+            if w_min <= ph_dec <= w_max and (ph_dec - w_min) % w_step == 0:
+                str_ += "{0:>6.2f}{1:>10.2f}\n".format(ph, dg)
         str_ += "\n"
     if ph_opt is None or dg_opt is None:
         str_ += "Could not determine pH optimum\n"
